@@ -227,6 +227,19 @@ def check_schemas(rng, n):
             params = [a.arg for a in st.args.args]
             ok_nontrivial = 0
             for _ in range(n):
+                if set(params) & {'packet', 'a', 'o', 'c'}:
+                    args = _criteria_args(rng, params)
+                    tried += 1
+                    try:
+                        r = fn(*args)
+                    except Exception as e:   # noqa
+                        bad.append((st.name, f'raised {type(e).__name__}: {e}'))
+                        break
+                    if not r:
+                        bad.append((st.name, 'FALSE on a random criteria tree'))
+                        break
+                    ok_nontrivial += 1
+                    continue
                 args = []
                 for p in params:
                     if p in ('B', 'T', 'data'):
@@ -245,6 +258,38 @@ def check_schemas(rng, n):
             if ok_nontrivial == 0:
                 bad.append((st.name, 'never evaluated'))
     return tried, bad
+
+
+def _criteria_args(rng, params):
+    """random ANDed/ORed trees of Condition-like objects over a small packet (for the criteria lemma schemas)"""
+    from types import SimpleNamespace as NS
+    import specs.refsem as R
+
+    def val(v):
+        o = R.RInt(v)
+        o.raw_value = v
+        return o
+    packet = {k: val(rng.randint(0, 2)) for k in 'ABCD'}
+
+    def cond():
+        return NS(left_param=rng.choice('ABCD'), operator=rng.choice(['==', '!=', '<', 'geq']), right_param=None,
+                  right_value=str(rng.randint(0, 2)), left_use_calibrated_value=True, right_use_calibrated_value=False)
+
+    def tree(kind, depth):
+        conds = [cond() for _ in range(rng.randint(0, 2))]
+        subs = [tree('or' if kind == 'and' else 'and', depth - 1) for _ in range(rng.randint(0, 2))] if depth > 0 else []
+        return NS(conditions=conds, ors=subs) if kind == 'and' else NS(conditions=conds, ands=subs)
+    out = []
+    for p in params:
+        if p == 'packet':
+            out.append(packet)
+        elif p == 'a':
+            out.append(tree('and', rng.randint(0, 3)))
+        elif p == 'o':
+            out.append(tree('or', rng.randint(0, 3)))
+        else:
+            out.append(cond())
+    return out
 
 
 def check_programs(rng, n):
